@@ -252,7 +252,7 @@ class Worker:
             for pid in self.props:
                 impl = self.run_cases(pid)
                 mo = self.base[pid]["model"]
-                mm = sum(1 for a, b in zip(mo, impl) if a != b and a != "~")
+                mm = sum(1 for a, b in zip(mo, impl) if a != b and a not in ("~", "U"))
                 pf = 0
                 ex = None
                 if mm:
